@@ -172,3 +172,26 @@ func deref(t *T) *T {
 }
 
 func isNull(k Kind) bool { return k >= KNullInt && k <= KNullTime }
+
+// Recursive returns the hand-written recursive / mutually recursive family as
+// cyclic type expressions (their reflect types are registered by package gen users).
+func Recursive() []Item {
+	L := Leaf
+	r := &T{K: KStruct, Named: "gen.R", GoName: "R"}
+	r.Fields = []F{{Name: "A", Index: 1, T: &T{K: KSlice, Elem: r}}, {Name: "B", Index: 2, T: L(KInt)}, {Name: "C", Index: 3, T: L(KString)}}
+	a1 := &T{K: KStruct, Named: "gen.A1", GoName: "A1"}
+	b1 := &T{K: KStruct, Named: "gen.B1", GoName: "B1"}
+	a1.Fields = []F{{Name: "B", Index: 1, T: Ptr(b1)}, {Name: "X", Index: 2, T: L(KInt)}}
+	b1.Fields = []F{{Name: "A", Index: 1, T: &T{K: KSlice, Elem: a1}}, {Name: "Y", Index: 2, T: L(KString)}}
+	p := &T{K: KStruct, Named: "gen.P", GoName: "P"}
+	p.Fields = []F{{Name: "Next", Index: 1, T: Ptr(p)}, {Name: "V", Index: 2, T: L(KInt)}}
+	m := &T{K: KStruct, Named: "gen.M", GoName: "M"}
+	m.Fields = []F{{Name: "Kids", Index: 1, T: Map(L(KString), m)}, {Name: "V", Index: 2, T: L(KInt)}}
+	var out []Item
+	for _, t := range []*T{r, a1, b1, p, m} {
+		out = append(out, Item{T: t, Base: t, Pos: "recursive"},
+			Item{T: &T{K: KSlice, Elem: t}, Base: t, Pos: "recursive"},
+			Item{T: Struct(F{Name: "F1", Index: 1, T: Ptr(t)}, F{Name: "Z", Index: 9, T: L(KInt)}), Base: t, Pos: "recursive"})
+	}
+	return out
+}
